@@ -47,6 +47,7 @@ class Gen:
         self.last_sub = []
         self.slow_hint = []      # nodes whose completion schedules like to delay (ctl 'starve')
         self.pending_outside = []  # shared dependencies of candidates that the one-of consumer reads as well
+        self.rec_inner_pool = []   # nodes inside finished recurrent subgraphs (hostile family rec_outside_consumer)
 
     def new_node(self, **kw):
         nid = f'N{self.n}'
@@ -162,6 +163,44 @@ class Gen:
         self.slow_hint.append(rng.choice([d['id'], x['id']]))
         visible.append(d['id'])
 
+    def rec_paths_shape(self, consumer, visible):
+        """consumer(w: SwitchCase(D, [L0: DIR(a: Rec), L1: GRD(a: OneOf([CAND(a: Rec), FB]))])): one recurrent subgraph
+        is reachable directly and through a one-of candidate, the path is chosen by the input; its start node fails in
+        the re-iteration for some inputs (contained on the one path, fatal for the run on the other)."""
+        import copy
+        rng = self.rng
+        mark = self.make_rec(list(visible), 1, in_cand=False, nested_ok=False)
+        start, dest = self.nodes[mark[1]], self.nodes[mark[2]]
+        ins = list(self.p['inputs'])
+        start['plan']['fail_on_ad'] = rng.choice(['E1', 'E2', 'ERt'])
+        start['plan']['fail_on_ad_when'] = sorted(rng.sample(ins, 2))
+        start.pop('retry', None)
+        dest['plan'].pop('iter_by_attempt', None)
+        dest['plan'].pop('falsy_ad', None)
+        dest['plan']['want_iter'] = {str(v): rng.choice([1, 1, min(2, mark[3])]) for v in ins}
+
+        def mk(flag, params):
+            n = self.new_node()
+            n['params'] = params
+            self.flags[n['id']].add(flag)
+            self.finish(n)
+            return n['id']
+        direct = mk('case', [['a', mark]])
+        cand = mk('cand', [['a', copy.deepcopy(mark)]])
+        fb = mk('cand', [['a', ['in', 'N0']]])
+        grd = mk('case', [['a', ['oneof', [cand, fb]]]])
+        d = self.new_node(kind='decider')
+        self.flags[d['id']].add('decider')
+        d['params'].append(['a', ['in', 'N0']])
+        d['plan']['labels'] = ['L0', 'L1']
+        d['plan']['label_by_input'] = {str(v): rng.choice(['L0', 'L1']) for v in ins}
+        self.finish(d)
+        self.sw += 1
+        cases = [['L0', direct], ['L1', grd]]
+        if rng.random() < 0.5:
+            cases.reverse()
+        consumer['params'].append(['w', ['sw', f'sw{self.sw}', d['id'], cases]])
+
     def reusable(self, visible):
         """Finished nodes that may become a case / candidate of a further construct."""
         out = []
@@ -192,6 +231,8 @@ class Gen:
             self.decorate(node)
             self.finish(node)
             return nid
+        if not in_rec and not in_cand and depth > 0 and self.budget >= 6 and rng.random() < p.get('p_rec_paths_shape', 0.02):
+            self.rec_paths_shape(node, local_visible)
         if not in_rec and depth > 0 and self.budget >= 5 and rng.random() < p.get('p_lazy_fail_shape', 0.03):
             self.lazy_fail_shape(node, local_visible)
         for i in range(max(1, nparams)):
@@ -210,6 +251,7 @@ class Gen:
             if mark[0] == 'rec':
                 inner = [x for x in self.last_sub if x != mark[2]]
                 self.rec_done[nid] = inner
+                self.rec_inner_pool.extend(inner)
                 if inner and rng.random() < p.get('p_rec_inner_read', 0.25):
                     # ordered outside consumer: the node that consumes the recurrent result also reads
                     # a node inside the subgraph (must see its final-iteration value)
@@ -221,6 +263,11 @@ class Gen:
     def pick_dep(self, visible, depth, in_rec, in_cand, avoid=()):
         """An Input dependency: shared visible node or a fresh sub-pipeline or the input node."""
         rng, p = self.rng, self.p
+        if self.hostile == 'rec_outside_consumer' and not in_rec and self.rec_inner_pool and rng.random() < 0.35:
+            # hostile (KF-RECOUT): a node outside a recurrent subgraph reads a node inside it, unordered
+            cand = [x for x in self.rec_inner_pool if x not in avoid]
+            if cand:
+                return rng.choice(cand)
         sh = [s for s in self.shareable(visible, in_rec) if s not in avoid]
         if sh and (rng.random() < p['p_share'] or self.budget <= 0 or depth <= 0):
             return rng.choice(sh)
@@ -736,6 +783,39 @@ def pessimistic_tags(prog):
     return out
 
 
+def dynamic_two_scopes(prog, ref):
+    """Is a recurrent destination inside two sub-pipeline scopes that are both ACTIVE in this run (main pipeline,
+    the selected case of every evaluated switch, the candidates every evaluated one-of really tried)?"""
+    nodes = prog['nodes']
+    cons = consumers(prog)
+    roots = []
+    st = [(prog['output'], 0)]
+    while st and len(roots) < 400:
+        root, d = st.pop()
+        roots.append(root)
+        if d > 6:
+            continue
+        for x in eager_closure(prog, root):
+            for pname, m in nodes[x].get('params', []):
+                if m[0] == 'sw':
+                    sel = ref.label_of.get((x, pname))
+                    if sel:
+                        st.append((sel[1], d + 1))
+                elif m[0] == 'oneof':
+                    for c in ref.tried_of.get((x, pname), []):
+                        st.append((c, d + 1))
+    closures = [(r, eager_closure(prog, r)) for r in roots]
+    dests = {m[2] for n in nodes.values() for _, m in n.get('params', []) if m[0] == 'rec'}
+    for dest in dests:
+        k = 0
+        for r, clo in closures:
+            if dest in clo and not (r != prog['output'] and _scope_ordered_after(prog, cons, r, dest)):
+                k += 1
+        if k > 1:
+            return True
+    return False
+
+
 def _ordered_after(prog, cons, y, dest):
     """Is node y started only after the recurrent destination `dest` has its final value?
     True if a consumer of dest (through the Rec mark) is an ancestor of y or y itself, or y belongs to
@@ -885,7 +965,10 @@ def analyze(prog):
             break
     for start, dest, mx, consumer in recs:
         if occ(dest, dest) > 1:
-            tags.add('rec_two_scopes')
+            # structural over-approximation (every case of every switch and every candidate is a scope); the
+            # known-finding family 'rec_two_scopes' is the DYNAMIC refinement computed per run by
+            # dynamic_two_scopes() from the cases / candidates the reference really evaluates
+            tags.add('rec_two_scopes_static')
     starts = [s for s, _, _, _ in recs]
     if len(set((s, d) for s, d, _, _ in recs)) != len(set(starts)):
         tags.add('rec_shared_start')
